@@ -439,11 +439,10 @@ def pool(R, ctx, rid_override=None, only=None):
                  "declaration renamed to `%s`, recorded as %s (expected `%s`, reusable) %s" % (cell["v"], rec, want, why[:1] if not ok else ""))
 
 
-def distinct_names(R, ctx):
+def distinct_names(R, ctx, rid="C09.distinct"):
     """Names drawn for simultaneously live declarations are pairwise distinct (the real generator, not a stub)."""
     from .. import peval
     from ..peval import Ref, Iter
-    rid = "C09.distinct"
     lib = ctx.lib
     R.rule(rid, "the renamer built by its public constructor (its own character permutator, its own avoid set seeded with a global and the "
                 "keywords), evaluated from its typed tree: 3 000 declarations inserted into one scope without any scope being closed (so no "
